@@ -17,33 +17,42 @@ Proof. apply hybrid_no_full_pti. Qed.
 
 Theorem C05_full_pti to_shaft to_elec i : h_any_full i = true ->
   elec_imbalance to_shaft to_elec i == 0 /\
-  shaft_imbalance to_shaft to_elec i == to_shaft (to_elec (s2 to_shaft i)) - s2 to_shaft i.
+  shaft_imbalance to_shaft to_elec i == to_shaft (elec_final to_shaft to_elec i) - s2 to_shaft i.
 Proof. apply hybrid_full_pti. Qed.
+
+(* a step at which the machine shares the load with the sources (sharing flag 0): exact on both sides *)
+Theorem C05_load_sharing_step to_shaft to_elec i : h_any_full i = true -> h_bal i = true -> h_full i = false ->
+  elec_imbalance to_shaft to_elec i == 0 /\ shaft_imbalance to_shaft to_elec i == 0.
+Proof. apply hybrid_load_sharing_step. Qed.
 
 Theorem C05_both_within_eps to_shaft to_elec i eps :
   (forall x, Qabs (to_shaft (to_elec x) - x) <= eps) ->
   (forall x, Qabs (to_elec (to_shaft x) - x) <= eps) ->
-  (h_full i = false \/ h_any_full i = true) ->
+  (h_full i = false \/ h_any_full i = true) -> (h_bal i = true -> h_full i = false) ->
   Qabs (elec_imbalance to_shaft to_elec i) <= eps /\ Qabs (shaft_imbalance to_shaft to_elec i) <= eps.
 Proof. apply hybrid_both_within_eps. Qed.
 
 Theorem C05_loss to_shaft to_elec i :
-  elec_final to_shaft to_elec i = to_elec (shaft_balanced_with to_shaft i) /\
-  (h_full i = true -> shaft_balanced_with to_shaft i = h_load i /\ elec_final to_shaft to_elec i = to_elec (h_load i)) /\
+  (h_any_full i && h_bal i = false -> elec_final to_shaft to_elec i = to_elec (shaft_balanced_with to_shaft i)) /\
+  (h_full i = true -> h_bal i = false -> shaft_balanced_with to_shaft i = h_load i /\ elec_final to_shaft to_elec i = to_elec (h_load i)) /\
   (h_any_full i = true -> shaft_final to_shaft to_elec i = to_shaft (elec_final to_shaft to_elec i)).
 Proof. apply hybrid_loss. Qed.
 
-Example C05_example : (* a machine with 10 % loss either way; PTI step of 200 kW electric; full-PTI step of 900 kW load *)
+Example C05_example : (* a machine with 10 % loss either way; PTI step of 200 kW electric; full-PTI step of 900 kW load;
+                          a step at which it shares the load (PTO of 300 kW electrical) *)
   let ts := fun e => if Qle_bool e 0 then e / (9#10) else e * (9#10) in
   let te := fun s => if Qle_bool s 0 then s * (9#10) else s / (9#10) in
-  let a := {| h_e0 := 200; h_load := 1000; h_full := false; h_any_full := true |} in
-  let b := {| h_e0 := 0; h_load := 900; h_full := true; h_any_full := true |} in
+  let a := {| h_e0 := 200; h_load := 1000; h_full := false; h_any_full := true; h_bal := false |} in
+  let b := {| h_e0 := 0; h_load := 900; h_full := true; h_any_full := true; h_bal := false |} in
+  let c := {| h_e0 := -300; h_load := 1000; h_full := false; h_any_full := true; h_bal := true |} in
   (Qred (elec_final ts te a), Qred (shaft_final ts te a)) = (200, 180) /\
   (Qred (elec_final ts te b), Qred (shaft_final ts te b)) = (1000, 900) /\
-  Qred (elec_imbalance ts te b) = 0 /\ Qred (shaft_imbalance ts te b) = 0.
+  Qred (elec_imbalance ts te b) = 0 /\ Qred (shaft_imbalance ts te b) = 0 /\
+  (Qred (elec_final ts te c), Qred (shaft_final ts te c)) = (-300, -1000 # 3).
 Proof. vm_compute. repeat split. Qed.
 
 Print Assumptions C05_no_full_pti.
 Print Assumptions C05_full_pti.
+Print Assumptions C05_load_sharing_step.
 Print Assumptions C05_both_within_eps.
 Print Assumptions C05_loss.
